@@ -116,3 +116,11 @@ ENTRIES += [
     B('recorder-control-encode-strict', "        self._control_record.block_file.write(\n            text.encode('utf-8', errors='surrogateescape')\n        )\n\n        if not data.endswith(b'\\n'):\n            self._control_record.block_file.write(b'\\n')\n\n    def control_receive_data",
       "        self._control_record.block_file.write(text.encode('utf-8'))\n\n        if not data.endswith(b'\\n'):\n            self._control_record.block_file.write(b'\\n')\n\n    def control_receive_data", 'C09-D1', 'wpull/warc/recorder.py'),
 ]
+
+ENTRIES += [
+    B('regress-handler-body-none', "            if response and response.body:\n                response.body.close()\n\n            return True, wait_time\n",
+      "            if response:\n                response.body.close()\n\n            return True, wait_time\n", 'C09-D2', 'wpull/processor/web.py'),
+    N('handler-body-getattr', "            if response and response.body:\n                response.body.close()\n\n            return True, wait_time\n",
+      "            if response:\n                if response.body:\n                    response.body.close()\n\n            return True, wait_time\n", 'wpull/processor/web.py'),
+    B('regress-robots-redirect-scheme', "                    if session.next_request().url_info.scheme \\\n                            not in ('http', 'https'):\n", "                    if False:\n", 'C09-D2', 'wpull/protocol/http/robots.py'),
+]
